@@ -23,3 +23,11 @@ package feeds
 //@      && (forall j :: 0 <= j && j < len(keeper.curFeeds(Store_feeds).Feeds) ==>
 //@            keeper.stp(Store_feeds, keeper.curFeeds(Store_feeds).Feeds[j].SignalID) == keeper.curFeeds(Store_feeds).Feeds[j].Power && keeper.curFeeds(Store_feeds).Feeds[j].Power != 0
 //@            && keeper.curFeeds(Store_feeds).Feeds[j].Interval == types.CalculateInterval(keeper.curFeeds(Store_feeds).Feeds[j].Power, old(keeper.feedsParams(Store_feeds)).PowerStepThreshold, old(keeper.feedsParams(Store_feeds)).MinInterval, old(keeper.feedsParams(Store_feeds)).MaxInterval)))
+
+// ---- C02 / C14: the module's ABCI entry point returns exactly what its blocker returned --------------------------------
+// (an error of the blocker must reach the SDK, which aborts the block; swallowing it would commit whatever the failed
+// blocker had already written - e.g. a fee share taken from the fee collector but only partly paid out)
+//@ func (am AppModule) EndBlock
+//@ may_panic calls
+//@ modifies *
+//@ forwards EndBlocker
